@@ -36,6 +36,14 @@ CLAIMS["C05"] = {
     "design_ref": "DESIGN.md §5 C05",
 }
 
+CLAIMS["C09"] = {
+    "technique": "static analysis: error-context typestate on backend(), re-executed-region rule, guard dominance over every subscript of the connection table, cycle-passes-setjmp reachability for per-task recovery points",
+    "text": "Decides the structural parts of driver survival: the backend recovery point is armed before anything can raise and nothing but once-guarded start-up steps is re-executed after a recovery; "
+            "every one of the ~40 subscripts of all_users in the whole driver is guarded against the table being NULL (idle driver, no connection yet); every loop that runs LPC tasks under one error context either re-arms per task or is a reviewed safe restart. "
+            "Liveness and 'the other users are served' are not decided; stale connection records after callbacks (C09-c) are not yet claimed.",
+    "design_ref": "DESIGN.md §5 C09",
+}
+
 NOT_APPLICABLE = {
     "C18": "Line/trace correctness is a value-level question about run-length tables (encode in the code generator, decode in find_line); no clause of it is visible in the shape of the code, so static analysis gives no verdict (DESIGN.md §6).",
 }
